@@ -13,14 +13,15 @@ namespace Layer.Agg
 total power below 2^63 (reporters are distinct by the store key; the model does not need it). -/
 structure WF (rs : List Report) : Prop where
   ne : rs ≠ []
-  parse : ∀ r ∈ rs, (parseHex r.value).isSome = true
+  parse : ∀ r ∈ rs, (parseHex (strip0x r.value)).isSome = true
   pos : ∀ r ∈ rs, 1 ≤ r.power
   total : psum rs < 2^63
 
 def aggVal (a : Aggregate) : Int := (parseHex a.value).getD 0
 
 /-- **C06 (weighted median), all parts.** For every well-formed round the median aggregate exists and
-* is a reported value, names a reporter who reported it (and that report's block height),
+* is a reported value (recorded without an optional `0x` prefix), names a reporter who reported it
+  (and that report's block height),
 * reports with strictly smaller values hold at most half of the total power,
 * reports with values up to and including it hold at least half,
 * records the sum of all powers,
@@ -29,7 +30,7 @@ def aggVal (a : Aggregate) : Int := (parseHex a.value).getD 0
 * and it is the *least* reported value whose cumulative power reaches half. -/
 theorem C06_median_full (rs : List Report) (wf : WF rs) :
     ∃ agg, weightedMedian rs = some agg ∧
-      (∃ r ∈ rs, r.value = agg.value ∧ r.reporter = agg.reporter ∧ r.block = agg.microHeight) ∧
+      (∃ r ∈ rs, strip0x r.value = agg.value ∧ r.reporter = agg.reporter ∧ r.block = agg.microHeight) ∧
       2 * powerBelow rs (aggVal agg) ≤ psum rs ∧
       2 * powerUpTo rs (aggVal agg) ≥ psum rs ∧
       agg.power = psum rs ∧
